@@ -55,3 +55,38 @@ pub fn c06_sequential_1() { evaluate_n(1) }
 /// @verif anchor=Sequential::evaluate bound="population size 3; all tags, any mix of evaluated/unevaluated"
 #[cfg_attr(kani, kani::proof)] #[cfg_attr(kani, kani::unwind(6))]
 pub fn c06_sequential_3() { evaluate_n(3) }
+
+// ---- the requirement check itself: `StateReq::require::<S, T>()` is Ok exactly if a `T` is present (this is the trusted
+// mirror contract of the Verus unit C06/verus/require, discharged here on the real code; scopes: the type may live in a
+// parent scope)
+use better_any::{Tid, TidAble};
+#[derive(Tid)]
+pub struct Flag(pub u8);
+impl crate::CustomState<'_> for Flag {}
+#[derive(Tid)]
+pub struct Other(pub u8);
+impl crate::CustomState<'_> for Other {}
+
+/// @verif anchor=StateReq::require bound="one scope; Flag present or absent"
+#[cfg_attr(kani, kani::proof)] #[cfg_attr(kani, kani::unwind(6))]
+pub fn c06_require_iff_present_1() {
+    let mut state: State<LoggingProblem> = State::new();
+    let has_flag: bool = sym();
+    if has_flag { state.insert(Flag(1)); }
+    let r = state.requirements().require::<LoggingProblem, Flag>();
+    assert!(r.is_ok() == has_flag, "require::<_, T>() must be Ok exactly if a T is present");
+    std::mem::forget(r); std::mem::forget(state);
+}
+/// @verif anchor=StateReq::require tier=thorough bound="one scope; Flag/Other present or absent in any combination"
+#[cfg_attr(kani, kani::proof)] #[cfg_attr(kani, kani::unwind(6))]
+pub fn c06_require_iff_present() {
+    let mut state: State<LoggingProblem> = State::new();
+    let (has_flag, has_other): (bool, bool) = (sym(), sym());
+    if has_other { state.insert(Other(2)); }
+    if has_flag { state.insert(Flag(1)); }
+    let r = state.requirements().require::<LoggingProblem, Flag>();
+    assert!(r.is_ok() == has_flag, "require::<_, T>() must be Ok exactly if a T is present");
+    let r2 = state.requirements().require::<LoggingProblem, Other>();
+    assert!(r2.is_ok() == has_other, "require::<_, T>() must be Ok exactly if a T is present");
+    std::mem::forget(r); std::mem::forget(r2); std::mem::forget(state);
+}
